@@ -166,6 +166,44 @@ func checkC15(c *Ctx, r *Report) {
 			c15FreshStack(r, "C15.c", sk)
 			c15SaveRestore(r, "C15.c", sk)
 		}
+		// slots at or above the pointer are dead: they hold what an earlier push (possibly of an earlier parse) left
+		// there and ParserInit does not clear them. The only legitimate use of stack[pointer] is as the target of the
+		// store in PushStateSym; reading it or taking its address (e.g. as the $$ cell of a reduction) makes the
+		// result depend on the parser's history
+		{
+			var stale []string
+			for _, d := range sk.File.Decls {
+				fd, isF := d.(*ast.FuncDecl)
+				if !isF || fd.Body == nil || fd.Name.Name == "GetToken" {
+					continue
+				}
+				pmF := parentMap(fd.Body)
+				ast.Inspect(fd.Body, func(n ast.Node) bool {
+					ix, isI := n.(*ast.IndexExpr)
+					if !isI || !isStackPointerExpr(sk.Info, ix.Index) {
+						return true
+					}
+					base := strings.TrimSpace(printNode(sk.Fset, ix.X))
+					if base != "StateSymStack" && !strings.HasSuffix(base, ".StackSym") {
+						return true
+					}
+					// allowed: the left-hand side of a plain assignment in PushStateSym
+					if as, isA := pmF[ix].(*ast.AssignStmt); isA && fd.Name.Name == "PushStateSym" {
+						for _, l := range as.Lhs {
+							if unparen(l) == ast.Expr(ix) {
+								return true
+							}
+						}
+					}
+					stale = append(stale, fmt.Sprintf("%s uses %s at %s", fd.Name.Name, oneLine(printNode(sk.Fset, ix)), sk.pos(ix.Pos())))
+					return true
+				})
+			}
+			sort.Strings(stale)
+			r.Check(len(stale) == 0, "C15.c", "R12 STATE-INVENTORY", name+"/slots-above-the-top-are-never-read", sk.pos(parser.Pos()),
+				"stack[pointer] occurs only as the target of PushStateSym's store: no value is read from (and no pointer taken to) a slot that is not part of the current stack",
+				"a slot at the pointer (above the top of the stack) is read or aliased: "+strings.Join(stale, "; ")+" — it holds leftovers of earlier pushes, which ParserInit does not clear")
+		}
 		// slots are written only at the pointer or above-by-append: PushStateSym stores at [pointer]
 		push := sk.FuncDecl(recv, "PushStateSym")
 		if push != nil {
